@@ -10,6 +10,7 @@ import (
 
 	filetreekeeper "github.com/jackalLabs/canine-chain/v4/x/filetree/keeper"
 	filetreetypes "github.com/jackalLabs/canine-chain/v4/x/filetree/types"
+	oracletypes "github.com/jackalLabs/canine-chain/v4/x/oracle/types"
 	rnstypes "github.com/jackalLabs/canine-chain/v4/x/rns/types"
 	storagetypes "github.com/jackalLabs/canine-chain/v4/x/storage/types"
 )
@@ -132,9 +133,32 @@ func runX06(rc *RunCtx) {
 	for _, p := range provs {
 		keep[p] = rc.Chance(0.6)
 	}
+	// price feed: updated most blocks (sometimes twice, with a price reader in between); purchases priced from it;
+	// simulation-only transactions that update the feed and read the price in one go (served by some nodes only)
+	c.DeliverAs(8, &oracletypes.MsgCreateFeed{Creator: A(8), Name: sp.PriceFeed})
+	price := func() string { return fmt.Sprintf(`{"price":"0.%04d","24h_change":"0"}`, 1+rc.Intn(9999)) }
+	c.DeliverAs(8, &oracletypes.MsgUpdateFeed{Creator: A(8), Name: sp.PriceFeed, Data: price()})
+	payOnce := func() {
+		f := gen.NewFile(randBytes(rc.Rng, int64(1+rc.Intn(600))), 1024)
+		s.PostFile(rc.Intn(2), f, int64(1+rc.Intn(3)), c.Height+14_400+int64(rc.Intn(50_000)), int64(1_000_000+rc.Intn(1_000_000_000)))
+	}
 	for b := int64(0); b < 3*W+2*C; b++ {
 		if !nb([]time.Duration{6 * time.Second, time.Hour, 24 * time.Hour}[rc.Intn(3)]) {
 			return
+		}
+		if rc.Chance(0.5) {
+			c.SimOnly(8, &oracletypes.MsgUpdateFeed{Creator: A(8), Name: sp.PriceFeed, Data: price()},
+				&storagetypes.MsgBuyStorage{Creator: A(8), ForAddress: A(8), DurationDays: 30, Bytes: 3_000_000_000, PaymentDenom: "ujkl"})
+		}
+		if rc.Chance(0.6) {
+			payOnce()
+		}
+		if rc.Chance(0.7) {
+			c.DeliverAs(8, &oracletypes.MsgUpdateFeed{Creator: A(8), Name: sp.PriceFeed, Data: price()})
+			if rc.Chance(0.3) {
+				payOnce()
+				c.DeliverAs(8, &oracletypes.MsgUpdateFeed{Creator: A(8), Name: sp.PriceFeed, Data: price()})
+			}
 		}
 		for _, w := range files {
 			for _, p := range provs {
